@@ -3,6 +3,7 @@
 // dereference terminates the harness, which the driver reports as a violation).
 #include <trompeloeil.hpp>
 #include "enum_common.hpp"
+#include <array>
 #include <deque>
 #include <list>
 #include <map>
@@ -115,6 +116,10 @@ int main(int argc, char** argv) {
   structural("vector<vector<vector<int>>>", std::vector<std::vector<std::vector<int>>>{{{1}, {}}, {}}, "{ { { 1 }, {  } }, {  } }");
   structural("vector<tuple<int,pair<const char*,Custom>>>", std::vector<std::tuple<int, std::pair<const char*, Custom>>>{std::make_tuple(1, std::make_pair((const char*)nullptr, Custom{4}))}, "{ { 1, { nullptr, Custom<4> } } }");
   { int carr[3] = {1, 2, 3}; structural("int[3]", carr, "{ 1, 2, 3 }"); }
+  // collections whose elements are built-in arrays: still element-wise, still null-safe
+  { int m2[2][3] = {{1, 2, 3}, {4, 5, 6}}; structural("int[2][3]", m2, "{ { 1, 2, 3 }, { 4, 5, 6 } }"); }
+  { const char* s2[2][2] = {{"a", nullptr}, {nullptr, "b"}}; structural("const char*[2][2] with nulls", s2, "{ { a, nullptr }, { nullptr, b } }"); }
+  { std::vector<std::array<int, 2>> va{{{1, 2}}, {{3, 4}}}; structural("vector<array<int,2>>", va, "{ { 1, 2 }, { 3, 4 } }"); }
   // leaves inside structures keep default formatting under every base / fill / adjustment
   structural("vector<int> {255}", std::vector<int>{255}, "{ 255 }"); structural("pair<int,bool>", std::make_pair(255, true), "{ 255, 1 }");
   { Opaque<2> o; o.b[0] = 0x81; o.b[1] = 0xfe; std::ostringstream os; trompeloeil::print(os, std::vector<Opaque<2>>{o}); R.check("print(vector<opaque 2 bytes>)", "default", squeeze(os.str()), std::string("{ 2-byte object={ 0x81 0xfe } }"), "struct"); }
